@@ -1,4 +1,5 @@
 import ComposeVerif.Lemmas.ShortVolume
+import ComposeVerif.Lemmas.ShortDecode
 import ComposeVerif.Model.ShortTransform
 import ComposeVerif.Model.ShortDecode
 /-!
@@ -73,5 +74,312 @@ theorem volume_short_eq_long (a : VolSpec) (h : a.wf = true) : parseVolume a.ren
       have hsrc := foldl_applyFlag_source fl { source := s.render, target := tgt.render }
       rw [hsrc.1]
       simp [isFilePath_render s hs]
+
+/-- non-vacuity: `./data:/var/lib/../x:ro,z` is a well-formed spec, a bind mount, read-only, relabelled -/
+example : (VolSpec.mk (some (.plain ['.', '/', 'd'])) (.plain ['/', 'v']) [.ro, .z]).wf = true
+    ∧ (VolSpec.mk (some (.plain ['.', '/', 'd'])) (.plain ['/', 'v']) [.ro, .z]).long.type = ['b', 'i', 'n', 'd'] := by decide
+
+/-- a short spec is a bind mount iff its source is a host path (starts with `.`, `/`, `~`, `\\\\`, or is a drive path) -/
+theorem volume_bind_iff (a : VolSpec) : a.long.type = ['b', 'i', 'n', 'd'] ↔ isPath a.source = true := by
+  unfold VolSpec.long
+  by_cases h1 : a.source = none ∧ byteLen a.target.render ≤ 2
+  · simp only [h1, and_self, if_true]
+    simp [h1.1, isPath]
+  · simp only [h1, if_false]
+    by_cases h2 : isPath a.source = true
+    · simp [h2]
+    · simp [h2]
+
+/-- the same fact on the model of `format.ParseVolume`, for every input string -/
+theorem parseVolume_bind_iff (s : Str) (v : Vol) (h : parseVolume s = some v) :
+    v.type = ['b', 'i', 'n', 'd'] ↔ isFilePath v.source = true := by
+  unfold parseVolume at h
+  split at h
+  · cases h
+  · split at h
+    · cases h; simp [isFilePath]
+    · cases hs : scan (s ++ [NUL]) [] {} with
+      | none => simp [hs] at h
+      | some v' =>
+        simp only [hs, Option.map_some, Option.some.injEq] at h
+        subst h
+        unfold populateType
+        by_cases hp : isFilePath v'.source = true
+        · simp [hp]
+        · simp [hp]
+
+/-- an empty spec is rejected -/
+theorem volume_reject_empty : parseVolume [] = none := by decide
+
+theorem scan_empty_section (c : Char) (hc : c = ':' ∨ c = NUL) (rest : Str) (v : Vol) : scan (c :: rest) [] v = none := by
+  rcases hc with h | h <;> subst h <;> simp [scan, isWindowsDrive, populate, NUL]
+
+/-- an empty section between colons is rejected (`SRC::…`) -/
+theorem volume_reject_empty_section (g : Seg) (hg : g.wf = true) (rest : Str) :
+    parseVolume (g.render ++ ':' :: ':' :: rest) = none := by
+  have hne := Seg.render_ne_nil g hg
+  have hlen : ¬ byteLen (g.render ++ ':' :: ':' :: rest) ≤ 2 := by
+    have := byteLen_ge_length (g.render ++ ':' :: ':' :: rest)
+    have h1 : 1 ≤ g.render.length := by cases hr : g.render with | nil => exact absurd hr hne | cons _ _ => simp
+    simp only [List.length_append, List.length_cons] at this
+    omega
+  have hlen0 : byteLen (g.render ++ ':' :: ':' :: rest) ≠ 0 := by omega
+  simp only [parseVolume, hlen0, hlen, if_false, List.append_assoc, List.cons_append]
+  rw [scan_seg_colon g hg, populate_source g hg]
+  simp only []
+  rw [scan_empty_section ':' (Or.inl rfl)]
+  rfl
+
+/-- a trailing colon is rejected (`SRC:TGT:`) -/
+theorem volume_reject_trailing_colon (s t : Seg) (hs : s.wf = true) (ht : t.wf = true) :
+    parseVolume (s.render ++ ':' :: t.render ++ [':']) = none := by
+  have hsne := Seg.render_ne_nil s hs
+  have hlen : ¬ byteLen (s.render ++ ':' :: t.render ++ [':']) ≤ 2 := by
+    have := byteLen_ge_length (s.render ++ ':' :: t.render ++ [':'])
+    have h1 : 1 ≤ s.render.length := by cases hr : s.render with | nil => exact absurd hr hsne | cons _ _ => simp
+    simp only [List.length_append, List.length_cons, List.length_nil] at this
+    omega
+  have hlen0 : byteLen (s.render ++ ':' :: t.render ++ [':']) ≠ 0 := by omega
+  unfold parseVolume
+  rw [if_neg hlen0, if_neg hlen]
+  simp only [List.append_assoc, List.cons_append, List.nil_append]
+  rw [scan_seg_colon s hs, populate_source s hs]
+  simp only []
+  rw [scan_seg_colon t ht, populate_target false _ hsne t ht]
+  simp only []
+  rw [scan_empty_section NUL (Or.inr rfl)]
+  rfl
+
+/-- more than three sections are rejected (`SRC:TGT:X:…`), whatever follows -/
+theorem volume_reject_too_many_colons (s t x : Seg) (hs : s.wf = true) (ht : t.wf = true) (hx : x.wf = true) (rest : Str) :
+    parseVolume (s.render ++ ':' :: t.render ++ ':' :: x.render ++ ':' :: rest) = none := by
+  have hsne := Seg.render_ne_nil s hs
+  have htne := Seg.render_ne_nil t ht
+  have hxne := Seg.render_ne_nil x hx
+  have hlen : ¬ byteLen (s.render ++ ':' :: t.render ++ ':' :: x.render ++ ':' :: rest) ≤ 2 := by
+    have := byteLen_ge_length (s.render ++ ':' :: t.render ++ ':' :: x.render ++ ':' :: rest)
+    have h1 : 1 ≤ s.render.length := by cases hr : s.render with | nil => exact absurd hr hsne | cons _ _ => simp
+    simp only [List.length_append, List.length_cons] at this
+    omega
+  have hlen0 : byteLen (s.render ++ ':' :: t.render ++ ':' :: x.render ++ ':' :: rest) ≠ 0 := by omega
+  unfold parseVolume
+  rw [if_neg hlen0, if_neg hlen]
+  simp only [List.append_assoc, List.cons_append]
+  rw [scan_seg_colon s hs, populate_source s hs]
+  simp only []
+  rw [scan_seg_colon t ht, populate_target false _ hsne t ht]
+  simp only []
+  rw [scan_seg_colon x hx]
+  simp [populate, hxne, hsne, htne]
+
+/-- non-vacuity of the rejection theorems -/
+example : parseVolume "vol::/b".toList = none ∧ parseVolume "vol:/b:".toList = none ∧ parseVolume "vol:/b:ro:rw".toList = none := by decide
+
+/-! ## KEY[=VALUE] list vs mapping -/
+
+/-- `MappingWithEquals` (environment, build args): the list form and the mapping form decode to the same value;
+a bare `KEY` is the mapping entry `KEY: null` -/
+theorem kv_list_eq_map_MappingWithEquals (m : List (Str × Val))
+    (hk : ∀ p ∈ m, ∀ x ∈ p.1, x ≠ '=') (hnd : (m.map Prod.fst).Nodup) :
+    decodeMWE (.seq (m.map listEntry)) = decodeMWE (.map (m.map mapEntry)) := by
+  simp only [decodeMWE, mweOfList, kvOfList_entries .null m [] hk hnd (by simp), List.nil_append, List.map_map]
+  congr 2
+  apply List.map_congr_left
+  intro p _
+  obtain ⟨k, e⟩ := p
+  cases e <;> simp [mapEntry, entryValue, mappingValue, sprint_str]
+
+/-- `Mapping` (sysctls, annotations, …): a bare `KEY` and `KEY: null` both give the empty string -/
+theorem kv_list_eq_map_Mapping (m : List (Str × Val))
+    (hk : ∀ p ∈ m, ∀ x ∈ p.1, x ≠ '=') (hnd : (m.map Prod.fst).Nodup) :
+    decodeMapping (.seq (m.map listEntry)) = decodeMapping (.map (m.map mapEntry)) := by
+  simp only [decodeMapping, mappingOfList, mappingOfMap, kvOfList_entries (.str "") m [] hk hnd (by simp), List.nil_append, List.map_map]
+  congr 2
+
+/-- `Labels` -/
+theorem kv_list_eq_map_Labels (m : List (Str × Val))
+    (hk : ∀ p ∈ m, ∀ x ∈ p.1, x ≠ '=') (hnd : (m.map Prod.fst).Nodup) :
+    decodeLabels (.seq (m.map listEntry)) = decodeLabels (.map (m.map mapEntry)) := by
+  simp only [decodeLabels, mappingOfList, kvOfList_entries (.str "") m [] hk hnd (by simp), List.nil_append, List.map_map]
+  congr 2
+  apply List.map_congr_left
+  intro p _
+  obtain ⟨k, e⟩ := p
+  cases e <;> simp [mapEntry, entryValue, labelValue, sprint_str]
+
+/-- non-vacuity: `["A=1", "B", "C="]` and `{A: 1, B: null, C: ""}` -/
+example : decodeMWE (.seq ([("A".toList, Val.int 1), ("B".toList, .null), ("C".toList, .str "")].map listEntry))
+    = some (.map [("A", .str "1"), ("B", .null), ("C", .str "")]) := by rfl
+
+/-! ## string vs list -/
+
+theorem string_eq_singleton_StringList (s : String) : decodeStringList (.str s) = decodeStringList (.seq [.str s]) := rfl
+theorem string_eq_singleton_StringOrNumberList (s : String) :
+    decodeStringOrNumberList (.str s) = decodeStringOrNumberList (.seq [.str s]) := by
+  simp [decodeStringOrNumberList, sprint_str]
+/-- `dns: x` ≡ `dns: [x]` -/
+theorem transformStringOrList_short_eq_long (s : String) : transformStringOrList (.str s) = .ok (.seq [.str s]) := rfl
+theorem transformStringOrList_long_id (l : List Val) : transformStringOrList (.seq l) = .ok (.seq l) := rfl
+/-- `env_file: x` ≡ `env_file: [x]` ≡ `env_file: [{path: x, required: true}]` -/
+theorem transformEnvFile_short_eq_long (s : String) :
+    transformEnvFile (.str s) = .ok (.seq [.map [("path", .str s), ("required", .bool true)]])
+    ∧ transformEnvFile (.seq [.str s]) = transformEnvFile (.str s)
+    ∧ transformEnvFile (.seq [.map [("path", .str s), ("required", .bool true)]]) = transformEnvFile (.str s) := by
+  refine ⟨rfl, rfl, ?_⟩
+  simp [transformEnvFile, envFileValue, hasKey, Val.lookup]
+/-- healthcheck `test: cmd` ≡ `test: ["CMD-SHELL", cmd]` -/
+theorem healthcheck_test_short_eq_long (s : String) :
+    decodeHealthTest (.str s) = decodeHealthTest (.seq [.str "CMD-SHELL", .str s]) := rfl
+
+/-! ## the transformers: short form ↦ long form, long form unchanged -/
+
+theorem transformFileMount_short_eq_long (s : String) : transformFileMount (.str s) = .ok (.map [("source", .str s)]) := rfl
+theorem transformFileMount_long_id (m : Val.KVs) : transformFileMount (.map m) = .ok (.map m) := rfl
+theorem transformInclude_short_eq_long (s : String) : transformInclude (.str s) = .ok (.map [("path", .str s)]) := rfl
+theorem transformInclude_long_id (m : Val.KVs) : transformInclude (.map m) = .ok (.map m) := rfl
+theorem transformUlimits_id (m : Val.KVs) (i : Int) :
+    transformUlimits (.map m) = .ok (.map m) ∧ transformUlimits (.int i) = .ok (.int i) := ⟨rfl, rfl⟩
+theorem transformVolumeMount_long_id (ign : Bool) (m : Val.KVs) : transformVolumeMount ign (.map m) = .ok (.map m) := rfl
+theorem transformDeviceMapping_long_id (ign : Bool) (m : Val.KVs) : transformDeviceMapping ign (.map m) = .ok (.map m) := rfl
+theorem transformSSH_long_id (m : Val.KVs) : transformSSH (.map m) = .ok (.map m) := rfl
+theorem transformKeyValue_long_id (ign : Bool) (m : Val.KVs) : transformKeyValue ign (.map m) = .ok (.map m) := rfl
+theorem transformServiceNetworks_long_id (m : Val.KVs) : transformServiceNetworks (.map m) = .ok (.map m) := rfl
+
+/-- the volume transformer on a well-formed short spec: the long form with a cleaned target, encoded with `omitempty` -/
+theorem transformVolumeMount_short_eq_long (ign : Bool) (a : VolSpec) (h : a.wf = true) :
+    transformVolumeMount ign (.str (String.ofList a.render))
+      = .ok (encodeVol { a.long with target := cleanTarget a.long.target }) := by
+  simp [transformVolumeMount, volume_short_eq_long a h]
+
+/-- and a spec that does not parse is an error, never a partial value -/
+theorem transformVolumeMount_reject (s : String) (h : parseVolume s.toList = none) :
+    transformVolumeMount false (.str s) = .err "parse" := by
+  simp [transformVolumeMount, h]
+
+/-- devices `SRC[:DST[:PERM]]` -/
+theorem transformDeviceMapping_short_eq_long (ign : Bool) (a : DevSpec) (h : a.wf = true) :
+    transformDeviceMapping ign (.str (String.ofList a.render))
+      = .ok (.map [("source", sv a.long.1), ("target", sv a.long.2.1), ("permissions", sv a.long.2.2)]) := by
+  obtain ⟨src, dst, perm⟩ := a
+  cases dst with
+  | none =>
+    simp only [DevSpec.wf, Bool.and_eq_true, Bool.not_eq_true'] at h
+    have c1 := (contains_false_iff _ _).1 h.1.1
+    simp [transformDeviceMapping, DevSpec.render, DevSpec.long, splitOn_clean _ _ c1]
+  | some d =>
+    cases perm with
+    | none =>
+      simp only [DevSpec.wf, Bool.and_eq_true, Bool.not_eq_true'] at h
+      have c1 := (contains_false_iff _ _).1 h.1.1
+      have c2 := (contains_false_iff _ _).1 h.1.2
+      simp [transformDeviceMapping, DevSpec.render, DevSpec.long, splitOn_append _ _ _ c1, splitOn_clean _ _ c2]
+    | some p =>
+      simp only [DevSpec.wf, Bool.and_eq_true, Bool.not_eq_true'] at h
+      have c1 := (contains_false_iff _ _).1 h.1.1
+      have c2 := (contains_false_iff _ _).1 h.1.2
+      have c3 := (contains_false_iff _ _).1 h.2
+      simp [transformDeviceMapping, DevSpec.render, DevSpec.long, splitOn_append _ _ _ c1, splitOn_append _ _ _ c2, splitOn_clean _ _ c3]
+
+/-- a device spec with four or more sections is rejected -/
+theorem transformDeviceMapping_reject (a b c d : Str) (rest : Str)
+    (ha : ∀ x ∈ a, x ≠ ':') (hb : ∀ x ∈ b, x ≠ ':') (hc : ∀ x ∈ c, x ≠ ':') :
+    transformDeviceMapping false (.str (String.ofList (a ++ ':' :: b ++ ':' :: c ++ ':' :: rest))) = .err "parse" := by
+  have h4 : ∃ x y, splitOn ':' rest = x :: y := by
+    cases hr : splitOn ':' rest with
+    | nil => exact absurd hr (splitOn_ne_nil _ _)
+    | cons x y => exact ⟨x, y, rfl⟩
+  obtain ⟨x, y, hxy⟩ := h4
+  simp [transformDeviceMapping, List.append_assoc, splitOn_append _ _ _ ha, splitOn_append _ _ _ hb, splitOn_append _ _ _ hc, hxy]
+
+/-- depends_on: list ≡ mapping with the default condition -/
+theorem transformDependsOn_short_eq_long (a b : String) (hab : a ≠ b) :
+    transformDependsOn (.seq [.str a, .str b])
+      = .ok (.map [(a, .map [("condition", .str "service_started"), ("required", .bool true)]),
+                   (b, .map [("condition", .str "service_started"), ("required", .bool true)])])
+    ∧ transformDependsOn (.map [(a, .map [("condition", .str "service_started"), ("required", .bool true)]),
+                   (b, .map [("condition", .str "service_started"), ("required", .bool true)])])
+      = transformDependsOn (.seq [.str a, .str b]) := by
+  have hba : ¬ b = a := fun h => hab h.symm
+  simp [transformDependsOn, dependsList, dependsMap, dependsDefaults, hasKey, Val.lookup, Val.insert, hba]
+
+/-- service networks: list ≡ mapping to null -/
+theorem transformServiceNetworks_short_eq_long (a b : String) (hab : a ≠ b) :
+    transformServiceNetworks (.seq [.str a, .str b]) = .ok (.map [(a, .null), (b, .null)]) := by
+  have hba : ¬ b = a := fun h => hab h.symm
+  simp [transformServiceNetworks, networksList, Val.insert, hba]
+
+/-- build ssh: `["default", "id=path"]` ≡ `{default: null, id: path}` -/
+theorem transformSSH_short_eq_long (id path : Str) (hid : ∀ x ∈ id, x ≠ '=') (hd : String.ofList id ≠ "default") :
+    transformSSH (.seq [.str "default", .str (String.ofList (id ++ '=' :: path))])
+      = .ok (.map [("default", .null), (String.ofList id, sv path)]) := by
+  have h1 : cutAt '=' ['d', 'e', 'f', 'a', 'u', 'l', 't'] = none := by decide
+  simp [transformSSH, sshList, h1, cutAt_append _ _ _ hid, Val.insert, hd]
+
+/-- a key without `=` other than `default` is rejected -/
+theorem transformSSH_reject (k : Str) (hk : ∀ x ∈ k, x ≠ '=') (hd : String.ofList k ≠ "default") :
+    transformSSH (.seq [.str (String.ofList k)]) = .err "parse" := by
+  simp [transformSSH, sshList, cutAt_clean _ _ hk, hd]
+
+/-- `KEY=VALUE` list ≡ mapping (build additional_contexts) -/
+theorem transformKeyValue_short_eq_long (k v : Str) (hk : ∀ x ∈ k, x ≠ '=') (ign : Bool) :
+    transformKeyValue ign (.seq [.str (String.ofList (k ++ '=' :: v))]) = .ok (.map [(String.ofList k, sv v)]) := by
+  simp [transformKeyValue, kvList, cutAt_append _ _ _ hk, Val.insert]
+
+theorem transformKeyValue_reject (k : Str) (hk : ∀ x ∈ k, x ≠ '=') :
+    transformKeyValue false (.seq [.str (String.ofList k)]) = .err "parse" := by
+  simp [transformKeyValue, kvList, cutAt_clean _ _ hk]
+
+/-- external: `external: {name: N}` ≡ `external: true, name: N` -/
+theorem transformMaybeExternal_short_eq_long (n : Val) :
+    externalFix [("external", .map [("name", n)])] = .ok [("external", .bool true), ("name", n)]
+    ∧ externalFix [("external", .bool true), ("name", n)] = .ok [("external", .bool true), ("name", n)] := by
+  simp [externalFix, Val.lookup, Val.insert]
+
+/-! ## the table: which transformer runs where -/
+
+theorem transformers_exclusive : TPath.PairwiseExclusive CV.Gen.transformers := by decide
+
+theorem dispatch (n i : String) :
+    TPath.firstMatch CV.Gen.transformers ["services", n, "ports"] = some "transformPorts"
+    ∧ TPath.firstMatch CV.Gen.transformers ["services", n, "volumes", i] = some "transformVolumeMount"
+    ∧ TPath.firstMatch CV.Gen.transformers ["services", n, "devices", i] = some "transformDeviceMapping"
+    ∧ TPath.firstMatch CV.Gen.transformers ["services", n, "secrets", i] = some "transformFileMount"
+    ∧ TPath.firstMatch CV.Gen.transformers ["services", n, "configs", i] = some "transformFileMount"
+    ∧ TPath.firstMatch CV.Gen.transformers ["services", n, "build", "secrets", i] = some "transformFileMount"
+    ∧ TPath.firstMatch CV.Gen.transformers ["services", n, "build"] = some "transformBuild"
+    ∧ TPath.firstMatch CV.Gen.transformers ["services", n, "build", "ssh"] = some "transformSSH"
+    ∧ TPath.firstMatch CV.Gen.transformers ["services", n, "build", "additional_contexts"] = some "transformKeyValue"
+    ∧ TPath.firstMatch CV.Gen.transformers ["services", n, "env_file"] = some "transformEnvFile"
+    ∧ TPath.firstMatch CV.Gen.transformers ["services", n, "depends_on"] = some "transformDependsOn"
+    ∧ TPath.firstMatch CV.Gen.transformers ["services", n, "networks"] = some "transformServiceNetworks"
+    ∧ TPath.firstMatch CV.Gen.transformers ["services", n, "extends"] = some "transformExtends"
+    ∧ TPath.firstMatch CV.Gen.transformers ["services", n, "dns"] = some "transformStringOrList"
+    ∧ TPath.firstMatch CV.Gen.transformers ["services", n, "ulimits", i] = some "transformUlimits"
+    ∧ TPath.firstMatch CV.Gen.transformers ["volumes", n] = some "transformMaybeExternal"
+    ∧ TPath.firstMatch CV.Gen.transformers ["networks", n] = some "transformMaybeExternal"
+    ∧ TPath.firstMatch CV.Gen.transformers ["secrets", n] = some "transformMaybeExternal"
+    ∧ TPath.firstMatch CV.Gen.transformers ["configs", n] = some "transformMaybeExternal" := by
+  simp [TPath.firstMatch, CV.Gen.transformers, TPath.pmatch]
+
+/-- build: `build: ctx` ≡ `build: {context: ctx}` at its position in the tree -/
+theorem transformBuild_short_eq_long (ign : Bool) (n s : String) :
+    transform ign ["services", n, "build"] (.str s) = .ok (.map [("context", .str s)]) := by
+  have h := (dispatch n "").2.2.2.2.2.2.1
+  simp [transform, h, leaf]
+
+/-- extends: `extends: svc` ≡ `extends: {service: svc}` -/
+theorem transformExtends_short_eq_long (ign : Bool) (n s : String) :
+    transform ign ["services", n, "extends"] (.str s) = .ok (.map [("service", .str s)]) := by
+  have h := (dispatch n "").2.2.2.2.2.2.2.2.2.2.2.2.1
+  simp [transform, h, leaf]
+
+/-- the volume transformer is the one that runs on every element of a service's `volumes` list -/
+theorem transform_volume_entry (ign : Bool) (n i s : String) :
+    transform ign ["services", n, "volumes", i] (.str s) = transformVolumeMount ign (.str s) := by
+  simp [transform, (dispatch n i).2.1, leaf]
+
+theorem transform_ports (ign : Bool) (n : String) (l : List Val) :
+    transform ign ["services", n, "ports"] (.seq l) = transformPorts ign (.seq l) := by
+  simp [transform, (dispatch n "").1, leaf]
 
 end CV.Short
